@@ -17,7 +17,6 @@ import (
 	"github.com/attestantio/vouch/internal/vnd"
 	"github.com/attestantio/vouch/internal/vstub"
 	"github.com/google/uuid"
-	"github.com/rs/zerolog"
 	e2types "github.com/wealdtech/go-eth2-types/v2"
 	e2wtypes "github.com/wealdtech/go-eth2-wallet-types/v2"
 )
@@ -244,7 +243,7 @@ func (c06Spec) Spec(_ context.Context, _ *clientapi.SpecOpts) (*clientapi.Respon
 // c06Service builds the service through its constructor, which fetches
 // SLOTS_PER_EPOCH and the domain types from the spec provider.
 func c06Service(d *vDomains) *Service {
-	s, err := New(context.Background(), WithLogLevel(zerolog.Disabled), WithMonitor(struct{}{}), WithClientMonitor(vstub.ClientMonitor{}),
+	s, err := New(context.Background(), WithLogLevel(vnd.LogLevel()), WithMonitor(struct{}{}), WithClientMonitor(vstub.ClientMonitor{}),
 		WithSpecProvider(c06Spec{}), WithDomainProvider(d))
 	vnd.Assert(err == nil && s != nil, "C06.new.accepted")
 	return s
@@ -386,7 +385,7 @@ func c06Roots(n int) {
 		caps := make([]*altair.ContributionAndProof, n)
 		for i := range caps {
 			caps[i] = &altair.ContributionAndProof{AggregatorIndex: phase0.ValidatorIndex(vnd.U64("aggregator")),
-				Contribution: &altair.SyncCommitteeContribution{Slot: slot, BeaconBlockRoot: phase0.Root(vnd.Root("cbr")), SubcommitteeIndex: uint64(i)}}
+				Contribution: &altair.SyncCommitteeContribution{Slot: slot, BeaconBlockRoot: phase0.Root(vnd.Root("cbr")), SubcommitteeIndex: uint64(vnd.Choose("contribution.subcommittee", 2))}} // several aggregators may share a subcommittee
 			roots[i], _ = caps[i].HashTreeRoot()
 		}
 		sigs, err = s.SignContributionAndProofs(context.Background(), accs, caps)
